@@ -373,18 +373,26 @@ def execute(plan):
             label = "no_encoder" if kind == "actisense" else sends[bad_ids[0]]["kind"]
         else:
             label = None
-        if names != ["CONNECTED"] or len(o.attempts) != 1:
-            first = next((s for s in o.status[1:]), None)
+        # the state must stay as it was: nothing is notified after the (one) CONNECTED, one connection attempt in all;
+        # what the client reports on the way to CONNECTED (a CONNECTING state ...) is not this property's business
+        if names.count("CONNECTED") != 1 or names[-1] != "CONNECTED" or len(o.attempts) != 1:
+            first = next((s for s in o.status[names.index("CONNECTED") + 1:]), None) if "CONNECTED" in names else None
             chk = ("C19.W2." + label) if label else "C19.W1.content"
             v.append(viol(chk + sfx, first[0] if first else end_ev,
                           "fault-free session with %d send() calls (%d unsendable): status notifications %s, %d connection "
-                          "attempts (expected one CONNECTED and one attempt)" % (len(sends), len(bad_ids) if kind != "actisense" else len(sends), names, len(o.attempts))))
+                          "attempts (expected one CONNECTED, nothing after it, and one attempt)" % (len(sends), len(bad_ids) if kind != "actisense" else len(sends), names, len(o.attempts))))
         if kind == "actisense":
             wrote = [w for c in o.conns for w in c["written"]]
             if wrote:
                 v.append(viol("C19.W2.no_encoder" + sfx, end_ev, "client without an encoder wrote %d packet(s)" % len(wrote)))
         else:
-            missing = [i for i in ok_ids if i not in complete and i in recs and i not in interleaved_ids]
+            # only send() calls made once connect() has returned count: what send() does while the client is still on
+            # its way to CONNECTED (refuse, wait, write already) is left open by the statement
+            t_ready = next((e[1] for e in o.trace if e[3] == "op" and e[4] == "connect.end"), None)
+            missing = [i for i in ok_ids if i not in complete and i in recs and i not in interleaved_ids
+                       and t_ready is not None and recs[i]["start"] >= t_ready]
+            st["sends_judged_for_completeness"] = len([i for i in ok_ids if i in recs and t_ready is not None and recs[i]["start"] >= t_ready])
+            st["sends_before_connect_returned(not judged)"] = len([i for i in ok_ids if i in recs and (t_ready is None or recs[i]["start"] < t_ready)])
             if missing:
                 v.append(viol("C19.W1.content" + sfx, recs[missing[0]]["start_ev"], "send #%d (sendable) wrote nothing although "
                               "the connection was healthy" % missing[0]))
